@@ -44,7 +44,7 @@ ASSUMPTIONS = [
     "leaving the position unchanged is also accepted",
     "slice bounds follow Python slice clipping (step None or 1)",
 ]
-FLOORS = {"op_checked": 5000, "confinement_checked": 1500,
+FLOORS = {"failed_transfer": 100, "op_checked": 5000, "confinement_checked": 1500,
           "truncated_transfer": 200, "outside_position_transfer": 100,
           "closed_or_freed_op": 200, "slice_checked": 500}
 ANCHORS = [("rig.machine_control.machine_controller", "SlicedMemoryIO.read",
@@ -109,6 +109,11 @@ def gen(cls, idx, rng, tier):
             ops.append(("free",))
         else:
             ops.append(("index", v, rng.randint(-3, 3)))
+    if rng.random() < .35:
+        # some transfers are attempted while the machine does not answer
+        for i, o in enumerate(ops):
+            if o[0] in ("read", "write") and rng.random() < .25:
+                ops[i] = ("net_down",) + o
     return dict(length=length, base=base, buf=rng.choice([16, 64, 256]),
                 ops=ops, seed=rng.randrange(1 << 30))
 
@@ -162,8 +167,14 @@ def run(case, ctx):
     mark = [0]
 
     for op in case["ops"]:
+        net_down = op[0] == "net_down"
+        if net_down:
+            op = op[1:]
+            r.net.plan = lambda net, sock, data, n: [("lost",)]
         kind = op[0]
-        trace.append(op if kind != "write" else ("write", op[1], len(op[2])))
+        trace.append((("net down",) if net_down else ()) +
+                     (op if kind != "write" else ("write", op[1],
+                                                  len(op[2]))))
         mark[0] = len(m.cmds)
         chip.writes = []
         del m.protocol_errors[:]
@@ -180,6 +191,23 @@ def run(case, ctx):
         except Exception as e:
             res, exc = None, e
         ctx.hit("op_checked")
+        if net_down:
+            r.net.plan = None
+            if isinstance(exc, r.sc.SCPError):
+                # nothing was transferred: the view is where it was and the
+                # memory holds what it held (no request reached the machine)
+                ctx.hit("failed_transfer")
+                check(not m.cmds[mark[0]:], "oracle", "command got through")
+                try:
+                    now = v.obj.tell()
+                except Exception as ex:
+                    raise Violation("tell-failed-after-failed-transfer",
+                                    repr(ex), **where)
+                check(now == v.pos, "position-moved-by-failed-transfer",
+                      "%s raised %s having transferred nothing, but tell() "
+                      "went from %d to %d" % (kind, type(exc).__name__,
+                                              v.pos, now), **where)
+                continue
         io = wire()
         tw = [w for w in caught if issubclass(w.category,
                                               mcm.TruncationWarning)]
